@@ -12,7 +12,7 @@ ASSUMPTIONS = ['histories, sizes, overloads and the interleaved queries are conc
                'UF = bit-identity on Eigen scalar paths', 'data-dependent branches taken as the recorded shadows decide (the unchanged construction code has none; equality tests between inputs that a caching change would add follow the sharing pattern of the history)']
 FUNCTIONS = ['Cubic/Quintic/SepticSplineND: constructors, update (durations / time points)', 'updateSplineInternal, precomputeTimePowers, precomputePointDiffs, solveSpline / solveInternalDerivatives (cache resizing), solveQuintic/solveSepticSpline',
              'getEnergy, getEnergyGrad*, getEnergyPartialGradBy*, propagateGrad (value / reference), getTrajectory().evaluate, Segment::evaluate', 'SplineOptimizer::Workspace::resize', 'SplineOptimizer::evaluate with a reused workspace (explicit and built-in)', 'setInitState']
-OUTSIDE = ['histories longer than 3 updates', 'segment counts above 4', 'DIM > 2 (spline part), DIM > 2 (workspace part)']
+OUTSIDE = ['histories longer than 3 updates (4, sampled, in the thorough tier)', 'segment counts above 4', 'DIM > 2 (spline part), DIM > 2 (workspace part)']
 HARD_TIMEOUT = {'quick': 900, 'thorough': 3000}
 
 SHARE = ['h', 'P', 't0', 'bc']
@@ -45,6 +45,10 @@ def tasks(tier, seed):
             tr = c['triples']
             for i in range(0, len(tr), 16):
                 T.append({'name': 'triples o%d d%d #%d' % (o, d, i // 16), 'fn': 'run_hist', 'order': o, 'dim': d, 'hists': [list(x) for x in tr[i:i + 16]], 'seed': seed, 'timeout': 60})
+            if tier == 'thorough':
+                rq = C.rng_for(seed, 'C10quad', o, d)
+                quads = [[rq.choice(c['sizes']) for _ in range(4)] for _ in range(32)]
+                T.append({'name': 'quadruples o%d d%d' % (o, d), 'fn': 'run_hist', 'order': o, 'dim': d, 'hists': quads, 'seed': seed, 'timeout': 60})
             T.append({'name': 'shared o%d d%d' % (o, d), 'fn': 'run_share', 'order': o, 'dim': d, 'Ns': list(c['shareN']), 'seed': seed, 'timeout': 60})
     for (o, d) in c['ws']:
         T.append({'name': 'workspace o%d d%d' % (o, d), 'fn': 'run_ws', 'order': o, 'dim': d, 'seed': seed, 'timeout': 60})
